@@ -217,8 +217,9 @@ type NativeToken struct {
 }
 
 type tokReply struct {
-	Tokens []NativeToken
-	Err    string
+	Tokens    []NativeToken
+	Err       string
+	HostPanic string // the delegated function panicked in the native build
 }
 
 func (n *NativeHelper) Tokenize(fname, src string) (tokReply, error) {
